@@ -1902,3 +1902,73 @@ pub fn client_fragmented_reply_with_timers() -> Value {
 		json!({"probe":"client_fragmented_reply_with_timers","disagrees":false,"histories_tried":tried,"bound":"3 fragment gaps (30, 120, 260 ms) against a 60 ms inactivity tick"})
 	})
 }
+
+// ------------------------------------------------------------------------------------------
+/// C04 through generated code: a subscription declared with the `rpc` macro — as an `async fn` or as a plain `fn`, with a
+/// notification name that differs from the subscribe name — sends its notifications under ITS notification method name and
+/// its own subscription id (the registration code exists only after macro expansion).
+pub mod generated_api {
+	use jsonrpsee::core::server::{PendingSubscriptionSink, SubscriptionMessage};
+	use jsonrpsee::core::{SubscriptionResult, async_trait};
+	use jsonrpsee::proc_macros::rpc;
+	use serde_json::{Value, json};
+
+	#[rpc(server, namespace = "chain")]
+	pub trait Api {
+		#[subscription(name = "subscribeAsync" => "asyncNotif", unsubscribe = "unsubscribeAsync", item = u32)]
+		async fn sub_async(&self) -> SubscriptionResult;
+		#[subscription(name = "subscribeSync" => "syncNotif", unsubscribe = "unsubscribeSync", item = u32)]
+		fn sub_sync(&self);
+		#[subscription(name = "subscribePlain", unsubscribe = "unsubscribePlain", item = u32)]
+		async fn sub_plain(&self) -> SubscriptionResult;
+	}
+	pub struct ApiImpl;
+	#[async_trait]
+	impl ApiServer for ApiImpl {
+		async fn sub_async(&self, pending: PendingSubscriptionSink) -> SubscriptionResult {
+			let sink = pending.accept().await?;
+			sink.send(serde_json::value::to_raw_value(&1_u32).unwrap()).await?;
+			Ok(())
+		}
+		fn sub_sync(&self, pending: PendingSubscriptionSink) {
+			tokio::spawn(async move {
+				let Ok(mut sink) = pending.accept().await else { return };
+				let _ = sink.send(serde_json::value::to_raw_value(&1_u32).unwrap()).await;
+				let _ = sink.try_send(serde_json::value::to_raw_value(&2_u32).unwrap());
+				if let Ok(msg) = SubscriptionMessage::new(sink.method_name(), sink.subscription_id(), &3_u32) { let _ = sink.send(msg).await; }
+			});
+		}
+		async fn sub_plain(&self, pending: PendingSubscriptionSink) -> SubscriptionResult {
+			let sink = pending.accept().await?;
+			sink.send(serde_json::value::to_raw_value(&1_u32).unwrap()).await?;
+			Ok(())
+		}
+	}
+	pub fn run() -> Value {
+		super::rt().block_on(async {
+			let module = ApiImpl.into_rpc();
+			let mut tried = 0;
+			for (subscribe, notif, n) in [("chain_subscribeAsync", "chain_asyncNotif", 1usize), ("chain_subscribeSync", "chain_syncNotif", 3), ("chain_subscribePlain", "chain_subscribePlain", 1)] {
+				tried += 1;
+				let req = format!(r#"{{"jsonrpc":"2.0","method":"{subscribe}","id":0}}"#);
+				let (rp, mut stream) = match module.raw_json_request(&req, 16).await { Ok(x) => x, Err(e) => return json!({"probe":"generated_subscription_names","error":e.to_string()}) };
+				let rp: Value = serde_json::from_str(rp.get()).unwrap_or(Value::Null);
+				let sub_id = rp["result"].clone();
+				if sub_id.is_null() {
+					return json!({"probe":"generated_subscription_names","disagrees":true,"input":req,"observed":rp.to_string(),"expected":"subscription accepted"});
+				}
+				for i in 1..=n {
+					let msg = tokio::time::timeout(std::time::Duration::from_secs(2), stream.recv()).await.ok().flatten();
+					let v: Value = msg.as_ref().and_then(|m| serde_json::from_str(m.get()).ok()).unwrap_or(Value::Null);
+					if v["method"] != json!(notif) || v["params"]["subscription"] != sub_id || v["params"]["result"] != json!(i) {
+						return json!({"probe":"generated_subscription_names","disagrees":true,
+							"input": format!("macro-declared subscription {subscribe:?} (notification name {notif:?}); notification #{i}"),
+							"observed": v.to_string(), "expected": format!("method {notif:?}, subscription {sub_id}, result {i}")});
+					}
+				}
+			}
+			json!({"probe":"generated_subscription_names","disagrees":false,"inputs_tried":tried,"bound":"3 macro-declared subscriptions (async fn / plain fn with a notification name override, async fn with the default name)"})
+		})
+	}
+}
+pub fn generated_subscription_names() -> Value { generated_api::run() }
